@@ -364,6 +364,8 @@ Proof.
   - eapply e4_q_cancel; eauto.
   - eapply e4_q_resume_cancelled; eauto.
   - eapply e4_q_resume_read_fail; eauto.
+  - injection H as <-. unfold close. apply e4_q_crash.
+  - unfold close_ok in H. destruct (persist_ok s); [|discriminate]. injection H as <-. apply e4_q_crash.
 Qed.
 
 Lemma e4_q_init : e4_QInv init.
